@@ -138,6 +138,9 @@ func (cb *CanonicalBlock) UnmarshalCbor(r io.Reader) error {
 
 	if crcT, err := cboring.ReadUInt(r); err != nil {
 		return err
+	} else if _, crcErr := emptyCRC(CRCType(crcT)); crcErr != nil {
+		// An unknown CRC type can neither be verified nor serialised again.
+		return crcErr
 	} else {
 		cb.CRCType = CRCType(crcT)
 	}
